@@ -792,6 +792,19 @@ class Unit:
                 continue
             p0, kind0, ob0 = loops0[n_ - 1]
             mm0 = re.match(r'for\s+(.*?)\s+in\s+&mut\s+', body[p0:ob0], re.S)
+            if not mm0 and ent.get('index'):
+                # R12, second spelling: `for PAT in V.iter_mut() { B }`
+                mm2 = re.match(r'for\s+(\w+)\s+in\s+(.+?)\.iter_mut\(\)\s*$', body[p0:ob0], re.S)
+                if mm2:
+                    expr = mm2.group(2).strip()
+                    iv = ent['index']
+                    ls = sn0.line_start(p0)
+                    indent = body[ls:p0]
+                    newhead = 'let mut %s: usize = 0;\n%swhile %s < %s.len() ' % (iv, indent, iv, expr)
+                    first = ' let %s = &mut %s[%s]; %s += 1;' % (mm2.group(1), expr, iv, iv)
+                    log.append(dict(rule='R12', before=norm_ws(body[p0:ob0 + 1]), after=norm_ws(newhead + '{' + first)))
+                    body = body[:p0] + newhead + '{' + first + body[ob0 + 1:]
+                    continue
             if not mm0:
                 # R13 (shared form): `for (K, V) in M { B }` over a borrowed HashMap (K, V bound by reference) -> the same key
                 # snapshot, `let K = &KS[I]; let V = map_get_present(M, K);`
